@@ -122,6 +122,12 @@ def t1(workdir):
                             "unmatched_responses", "discarded_opcode", "malformed_items"],
         "MalformedMessage": ["client_address_index", "client_port", "message_data_index"],
         "AddressEventCount": ["ae_code", "ae_transport_flags"],
+        "ResponseProcessingData": ["bailiwick_index", "processing_flags"],
+        "QueryResponseExtended": ["question_index", "answer_index", "authority_index", "additional_index"],
+        "BlockPreamble": ["block_parameters_index"],
+        "StorageParameters": ["storage_flags", "client_address_prefix_ipv4", "client_address_prefix_ipv6",
+                              "server_address_prefix_ipv4", "server_address_prefix_ipv6"],
+        "CollectionParameters": ["query_timeout", "skew_timeout", "snaplen"],
         "GenericQueryResponse": ["client_port", "transaction_id", "server_port", "query_opcode", "query_rcode",
                                  "query_qdcount", "query_ancount", "query_nscount", "query_arcount",
                                  "query_edns_version", "query_udp_size", "response_rcode", "client_hoplimit",
